@@ -213,6 +213,7 @@ static std::string step(const std::string& line) {
       if (w[1] == "b") e = x->b(I);
       else if (w[1] == "bl") e = x->bl(I);
       else if (w[1] == "bcond") e = x->b_eq(I);
+      else if (w[1] == "bc") e = x->bc_eq(I);
       else if (w[1] == "cbz") e = x->cbz(a64::x1, I);
       else if (w[1] == "tbz") e = x->tbz(a64::w2, 3, I);
       else if (w[1] == "adr") e = x->adr(a64::x3, I);
@@ -225,6 +226,7 @@ static std::string step(const std::string& line) {
       if (w[1] == "b") e = x->b(L);
       else if (w[1] == "bl") e = x->bl(L);
       else if (w[1] == "bcond") e = x->b_eq(L);
+      else if (w[1] == "bc") e = x->bc_eq(L);
       else if (w[1] == "cbz") e = x->cbz(a64::x1, L);
       else if (w[1] == "tbz") e = x->tbz(a64::w2, 3, L);
       else if (w[1] == "adr") e = x->adr(a64::x3, L);
@@ -247,6 +249,11 @@ static std::string step(const std::string& line) {
     if (!code.is_section_valid(uint32_t(u0)) || u0 > 0xFFFFFFFFull) return answer(Error::kInvalidSection);
     code.section_by_id(uint32_t(u0))->set_virtual_size(u1);
     return answer(Error::kOk);
+  }
+  if (op == "setoffset" && w.size() == 2) {
+    // BaseAssembler::set_offset - NOT part of the modelled op language (notes/C03.md, round 10): witness runs only
+    if (!vh::parse_u64(w[1], u0)) return "bad-op";
+    return answer(a->set_offset(size_t(u0)));
   }
   if (op == "flatten" && w.size() == 1) return answer(code.flatten());
   if (op == "resolve" && w.size() == 1) return answer(code.resolve_cross_section_fixups());
